@@ -141,9 +141,13 @@ class InboundHarness:
         w = SyncWorld(I, ctx, 1, (1, 2), ('p', 'q'))
         I.env['json_decode'] = serde_de.deserialize_document
         descs, docs, meaning = [], [], []
+        # the version starts by creating task 1, so that the symbolic operations that follow act on an existing task
+        docs.append(('obj', [('Create', ('obj', [('uuid', ('uuid', 1))]))]))
+        meaning.append(I.mk_enum('SyncOp', 'Create', [1]))
+        descs.append({'kind': 'Create', 'uuid': 1})
         for i in range(self.nops):
             kind = ['Create', 'Delete', 'Update', 'Update-null'][c.choose(4, 'kind')]
-            u = [1, 2][c.choose(2, 'uuid')] if i else 1
+            u = [1, 2][c.choose(2, 'uuid')]
             if kind in ('Create', 'Delete'):
                 docs.append(('obj', [(kind, ('obj', [('uuid', ('uuid', u))]))]))
                 meaning.append(I.mk_enum('SyncOp', kind, [u]))
@@ -356,10 +360,10 @@ def configs(tier):
         return [dict(name='wire', factory=lambda: Harness(2, ('p', 'q'), 'q'),
                      bounds='one replica, 2 committed operations (each optionally preceded by an undo point) after a populated synced task; 2 task ids, 2 properties'),
                 dict(name='inbound', factory=lambda: InboundHarness(2, 'iq'),
-                     bounds='a foreign version of 2 operations (Create / Delete / Update with a string / Update with null; 2 task ids, 2 properties; 6 field orders per Update; symbolic timestamps) pulled by an empty replica')]
+                     bounds='a foreign version of a Create followed by 2 operations (Create / Delete / Update with a string / Update with null; 2 task ids, 2 properties; 6 field orders per Update; symbolic timestamps) pulled by an empty replica')]
     return [dict(name='wire-3', factory=lambda: Harness(3, ('p', 'q'), 't'),
                  bounds='3 committed operations with optional undo points', time_limit_s=3000),
-            dict(name='inbound-3', factory=lambda: InboundHarness(3, 'it'), bounds='a foreign version of 3 operations, as quick', time_limit_s=3000)]
+            dict(name='inbound-3', factory=lambda: InboundHarness(3, 'it'), bounds='a foreign version of a Create followed by 3 operations, as quick', time_limit_s=3000)]
 
 
 ASSUMPTIONS = [
